@@ -26,6 +26,10 @@
  ***************************************************************************)
 EXTENDS Integers, Sequences, FiniteSets, TLC, Json
 
+\* A BYZANTINE reference dealer commits to P with its vector and takes shares and answers from a RELATED polynomial Q: well-formed,
+\* inconsistent, and chosen so that a slip in the evaluation of the vector (a skipped factor, a shifted index, a lost sign) could
+\* make the two agree.  Every honest receiver complains, finds the answer wrong and disqualifies the dealer.
+Relations == {"none", "div-x", "mul-x", "shift-1", "shift+1", "neg", "plus-c", "double", "reverse"}
 Shapes == {"generic", "zero-const", "zero-middle", "zero-lead", "root", "equal", "rminus1", "two-zeros", "cancel"}
 \* (protocol, n, t, reference dealer, participant that is not running or -1)
 Nets == {<<"qual", 3, 1, 0, -1>>, <<"qual", 4, 2, 1, -1>>, <<"qual", 4, 2, 3, 2>>, <<"qual", 5, 3, 0, 4>>, <<"qual", 6, 2, 5, 1>>,
@@ -37,17 +41,25 @@ Applicable(net, shape) ==
   /\ (shape = "root" => net[5] >= 0 /\ net[1] = "qual")
   /\ (shape = "cancel" <=> (net[1] = "jf" /\ net[5] >= 0))
   /\ (shape \in {"zero-middle", "two-zeros"} => net[3] >= 2)
-Init == c \in {[proto |-> net[1], n |-> net[2], t |-> net[3], dealer |-> net[4], silent |-> net[5], shape |-> s, order |-> o] :
-                 net \in Nets, s \in Shapes, o \in 0..2}
+RelApplicable(shape, rel) ==
+  CASE rel = "none"  -> TRUE
+    [] rel = "div-x" -> shape = "zero-const"            \* Q = P / x is a polynomial only then
+    [] OTHER         -> shape = "generic"
+Init == c \in {[proto |-> net[1], n |-> net[2], t |-> net[3], dealer |-> net[4], silent |-> net[5], shape |-> s, order |-> o, relation |-> r] :
+                 net \in Nets, s \in Shapes, o \in 0..2, r \in Relations}
         /\ Applicable(<<c.proto, c.n, c.t, c.dealer, c.silent>>, c.shape)
+        /\ RelApplicable(c.shape, c.relation)
+        /\ (c.relation # "none" => c.order \in {0, 1})
 Next == UNCHANGED c
 Spec == Init /\ [][Next]_c
 
+Disqualified(x) == x.relation # "none"            \* by every honest receiver (C08); its polynomial then counts for nothing (C07)
 GroupKeyIsIdentity(x) == (x.proto = "qual" /\ x.shape = "zero-const") \/ x.shape = "cancel"
-Outcome(x) == IF GroupKeyIsIdentity(x) THEN "fail" ELSE "keys"
+Outcome(x) == IF Disqualified(x) THEN (IF x.proto = "qual" THEN "fail" ELSE "keys") ELSE IF GroupKeyIsIdentity(x) THEN "fail" ELSE "keys"
 IdentityShare(x) == IF x.shape = "root" THEN x.silent ELSE -1
 
 \* sanity of the matrix: every shape is exercised in both protocols where it applies, and both outcomes occur
 Emit == PrintT(<<"CASE", ToJson([proto |-> c.proto, n |-> c.n, t |-> c.t, dealer |-> c.dealer, silent |-> c.silent, shape |-> c.shape,
-                                 order |-> c.order, outcome |-> Outcome(c), identityShare |-> IdentityShare(c)])>>)
+                                 order |-> c.order, relation |-> IF c.relation = "none" THEN "" ELSE c.relation, disqualified |-> Disqualified(c),
+                                 outcome |-> Outcome(c), identityShare |-> IF Disqualified(c) THEN -1 ELSE IdentityShare(c)])>>)
 =============================================================================
